@@ -40,7 +40,8 @@ pub fn iseqalias(a: &[&str]) -> Option<String> {
         _ => buf[xo..xo + xl].ends_with(&buf[yo..yo + yl]),
     };
     let rep = verif::take();
-    let (loads, bad) = fmt_loads(&rep.loads, 1);
+    let (loads, _) = fmt_loads(&rep.loads, 1);
+    let bad = rep.bad_loads;
     let steps: u64 = rep.ticks.iter().sum();
     Some(format!(
         "ok {} steps={} loads={} oracle={} badloads={} allocs={}",
